@@ -149,6 +149,14 @@ class MakeHeader(Contract):
         if self.mode == '3d':
             geom = SObj(prog.klass('Geometry3d'), dict(ilines=SRange(0, nI, 1), xlines=SRange(0, nX, 1)))
             d.update(tracecount=mul(nI, nX), geom=geom, unstructured=False)
+        elif self.mode == 'window':
+            # (C11) the axes are those of the whole source, geom is an ordinal window of it: the header describes the window
+            wi = c.sym_int('wil0', lo=0, name='window.first_inline_ordinal'); wx = c.sym_int('wxl0', lo=0, name='window.first_crossline_ordinal')
+            nIw = c.sym_int('nIw', lo=2, name='window.n_ilines'); nXw = c.sym_int('nXw', lo=2, name='window.n_xlines')
+            c.assume(le(add(wi, nIw), nI), le(add(wx, nXw), nX))
+            geom = SObj(prog.klass('Geometry3d'), dict(ilines=SRange(wi, add(wi, nIw), 1), xlines=SRange(wx, add(wx, nXw), 1)))
+            d.update(tracecount=mul(nI, nX), geom=geom, unstructured=False, _nI=nIw, _nX=nXw,
+                     _il=(add(il0, mul(wi, ild)), ild), _xl=(add(xl0, mul(wx, xld)), xld), _window=True)
         else:
             # irregular: inferred grid min + k*step per axis, fewer traces than grid cells
             geom = SObj(prog.klass('InferredGeometry3d'), dict(
@@ -216,7 +224,7 @@ class MakeHeader(Contract):
             fr = Fraction(rate)
             blocks = fdiv(mul(mul(mul(P0, P1), P2), fr.numerator), 8 * BLK * fr.denominator)
             grid = mul(nI, nX)
-            want(68, a['tracecount'], 'tracecount')
+            want(68, grid if a.get('_window') else a['tracecount'], 'tracecount')
         want(56, blocks, 'data_disk_blocks')
         # the block count is exact: padded voxels x bits is a whole number of 4 KiB blocks
         if self.mode != '2d':
@@ -230,11 +238,11 @@ class MakeHeader(Contract):
         c.ensure(mk_bool(tbl is a['hw_info'].table_bytes), 'table_at_980')
 
 
-for _mode in ('3d', '2d', 'irregular'):
-    _cfgs = ALL2 if _mode == '2d' else ALL3
+for _mode in ('3d', '2d', 'irregular', 'window'):
+    _cfgs = ALL2 if _mode == '2d' else (ALL3[:3] if _mode == 'window' else ALL3)
     _cls = type('MakeHeader_' + _mode, (MakeHeader,), dict(mode=_mode))
-    register(_cls, 'conversion_utils.py::make_header', ['C03', 'C05', 'C19'] + (['C09'] if _mode == '2d' else []) + (['C08'] if _mode == 'irregular' else []),
-             _cfgs, modes=('file',), tag=_mode)
+    _props = {'2d': ['C03', 'C05', 'C19', 'C09'], 'irregular': ['C03', 'C05', 'C19', 'C08'], 'window': ['C11']}.get(_mode, ['C03', 'C05', 'C19'])
+    register(_cls, 'conversion_utils.py::make_header', _props, _cfgs, modes=('file',), tag=_mode)
 
 
 # ---------------------------------------------------------------------------------------------
